@@ -681,8 +681,13 @@ class TensorDiagram:
                 free_source = self.add_node(source)[0]
 
             if target_index is None:
-                target_index = len(self._nodes)
-                free_target = self.add_node(target)[1]
+                if target is source:
+                    # self-contraction of a new node: do not add the node twice
+                    target_index = source_index
+                    free_target = self._unused_indices[source_index][1]
+                else:
+                    target_index = len(self._nodes)
+                    free_target = self.add_node(target)[1]
 
         if len(free_source) == 0 or len(free_target) == 0:
             raise TensorComputationError("Could not add the edge because no indices are left.")
